@@ -6,13 +6,14 @@ import (
 	"math/rand"
 	"runtime"
 	"sort"
+	"strings"
 	"sync"
 
 	"verif/harness/rt"
 )
 
-var sendMeths = []string{"write", "write", "sproc", "scheck", "signore", "zero", "signal"}
-var recvMeths = []string{"read", "read", "rprod", "rcheck", "ok", "force", "drop", "rignore"}
+var sendMeths = []string{"write", "write", "sproc", "scheck", "signore", "zero", "signal", "dsendf", "dsendf"}
+var recvMeths = []string{"read", "read", "rprod", "rcheck", "ok", "force", "drop", "rignore", "drecvf", "drecvf"}
 
 // record runs n random free-running scenarios on one channel (no stepping: real overlap) and prints
 // one history per line: {"hist":[events]} (events: ChanTrace.tla).
@@ -38,7 +39,8 @@ func record(n int, seed int64) {
 		nthreads := 2 + rng.Intn(3)
 		consumers := 0
 		logCall := func(id, op, k, meth string, nb bool, val string, pre bool, target string) {
-			rec.Log(rt.Event{"ev": "call", "id": id, "op": op, "k": k, "meth": meth, "nb": nb, "val": val, "pre": pre, "target": target})
+			rec.Log(rt.Event{"ev": "call", "id": id, "op": op, "k": k, "meth": meth, "nb": nb, "val": val, "pre": pre, "target": target,
+				"bad": strings.HasPrefix(val, "!")})
 		}
 		for t := 0; t < nthreads; t++ {
 			t := t
@@ -93,6 +95,9 @@ func record(n int, seed int64) {
 					val := ""
 					if k == "send" {
 						val = "a" + id
+						if (meth == "write" || meth == "dsendf") && r.Intn(4) == 0 {
+							val = "!" + val // an item the distributor filters reject
+						}
 					}
 					ctx, cancel := context.WithCancel(context.Background())
 					target := id
